@@ -6,6 +6,8 @@ same in Lua) is run by the REAL `uftrace script -S` with and without UFTRACE_FUN
 its lines are compared inside Coq with the model (script_run) and judged by the executable
 checker ok_script against what `uftrace replay --no-merge -f duration,tid,addr,time` of the same
 tree prints for the same data and options.
+Scripts defining only some callbacks (entry-only, exit-only, ...) and callbacks that raise are variants of the same tie
+(model: script_run_defs; checker ok_script_d).
 Tie, arguments / return value: directories whose records carry -A/-R payloads; what a Python and a Lua script receive in
 ctx["args"] / ctx["retval"] is compared (ok_script_args, inside Coq) with the text replay prints for the same record.
 Tie, record time: a threaded -pg program is recorded with `-S log.py`; the callbacks are judged by
@@ -20,32 +22,75 @@ from vf.core import sh
 from props import c06
 
 # every line is written with one unbuffered write(2): nothing is lost or duplicated across fork()
-PY_LOG = '''%s
+PY_HEAD = '''%s
 import os
-def uftrace_begin(ctx):
-    os.write(1, ("B %%d\\n" %% os.getpid()).encode())
-def uftrace_entry(ctx):
-    os.write(1, ("E %%d %%d %%d %%d %%s\\n" %% (ctx["tid"], ctx["depth"], ctx["timestamp"], ctx["address"], ctx["name"])).encode())
-def uftrace_exit(ctx):
-    os.write(1, ("X %%d %%d %%d %%d %%d %%s\\n" %% (ctx["tid"], ctx["depth"], ctx["timestamp"], ctx["duration"], ctx["address"], ctx["name"])).encode())
-def uftrace_end():
-    os.write(1, ("Z %%d\\n" %% os.getpid()).encode())
+RAISE = %s
+N = [0]
+def boom(ctx):
+    N[0] += 1
+    if N[0] - 1 in RAISE:
+        return ctx["nosuchkey"]            # KeyError inside the callback
 '''
-LUA_LOG = '''%s
-function uftrace_begin(ctx) print("B") end
-function uftrace_entry(ctx) print(string.format("E %%d %%d %%d %%d %%s", ctx["tid"], ctx["depth"], ctx["timestamp"], ctx["address"], ctx["name"])) end
-function uftrace_exit(ctx) print(string.format("X %%d %%d %%d %%d %%d %%s", ctx["tid"], ctx["depth"], ctx["timestamp"], ctx["duration"], ctx["address"], ctx["name"])) end
-function uftrace_end() print("Z") end
+PY_CB = {
+    "B": '''def uftrace_begin(ctx):
+    os.write(1, ("B %d\\n" % os.getpid()).encode())
+    boom(ctx)
+''',
+    "E": '''def uftrace_entry(ctx):
+    os.write(1, ("E %d %d %d %d %s\\n" % (ctx["tid"], ctx["depth"], ctx["timestamp"], ctx["address"], ctx["name"])).encode())
+    boom(ctx)
+''',
+    "X": '''def uftrace_exit(ctx):
+    os.write(1, ("X %d %d %d %d %d %s\\n" % (ctx["tid"], ctx["depth"], ctx["timestamp"], ctx["duration"], ctx["address"], ctx["name"])).encode())
+    boom(ctx)
+''',
+    "Z": '''def uftrace_end():
+    os.write(1, ("Z %d\\n" % os.getpid()).encode())
+''',
+}
+LUA_HEAD = '''%s
+RAISE = %s
+N = 0
+function boom() N = N + 1; if RAISE[N - 1] then error("boom") end end
 '''
+LUA_CB = {
+    "B": 'function uftrace_begin(ctx) print("B"); boom() end\n',
+    "E": 'function uftrace_entry(ctx) print(string.format("E %d %d %d %d %s", ctx["tid"], ctx["depth"], ctx["timestamp"], '
+         'ctx["address"], ctx["name"])); boom() end\n',
+    "X": 'function uftrace_exit(ctx) print(string.format("X %d %d %d %d %d %s", ctx["tid"], ctx["depth"], ctx["timestamp"], '
+         'ctx["duration"], ctx["address"], ctx["name"])); boom() end\n',
+    "Z": 'function uftrace_end() print("Z") end\n',
+}
+
+
+def lang_parts(lang):
+    '''"py" | "lua" | "py#BEZ" (the script defines begin, entry, end only) | "py!:1,4" | "py#EX!v:0,2"
+    -> (base, verbose, callbacks (0 = the first delivered one, then in order) that raise after logging, defined callbacks)'''
+    verbose, raising = False, []
+    if "!" in lang:
+        lang, rest = lang.split("!", 1)
+        flag, idx = rest.split(":", 1)
+        verbose, raising = flag == "v", [int(x) for x in idx.split(",") if x]
+    defs = "BEXZ"
+    if "#" in lang:
+        lang, defs = lang.split("#", 1)
+    return lang, verbose, raising, defs
+
+
+def coq_defs(lang):
+    d = lang_parts(lang)[3]
+    return "(mkdefs %s)" % " ".join("true" if k in d else "false" for k in "BEXZ")
 
 
 def write_script(path, lang, funcs):
-    if lang == "py":
+    base, _, raising, defs = lang_parts(lang)
+    if base == "py":
         hdr = "" if funcs is None else "UFTRACE_FUNCS = [%s]" % ", ".join('"%s"' % f for f in funcs)
-        open(path, "w").write(PY_LOG % hdr)
+        open(path, "w").write(PY_HEAD % (hdr, repr(set(raising)) if raising else "set()") + "".join(PY_CB[k] for k in "BEXZ" if k in defs))
     else:
         hdr = "" if funcs is None else "UFTRACE_FUNCS = {%s}" % ", ".join('"%s"' % f for f in funcs)
-        open(path, "w").write(LUA_LOG % hdr)
+        open(path, "w").write(LUA_HEAD % (hdr, "{" + ", ".join("[%d] = true" % i for i in raising) + "}")
+                              + "".join(LUA_CB[k] for k in "BEXZ" if k in defs))
 
 
 def parse_callbacks(out, tid_idx, name_idx, addr_idx):
@@ -142,6 +187,9 @@ def gen_patterns(rng, names, ptype):
 
 
 # ------------------------------------------------------------------ replay time
+SUBSETS = ["py#BEZ", "py#BXZ", "lua#BEZ", "lua#BXZ", "py#BZ", "py#EX", "lua#EX", "py#E", "lua#X", "py#XZ", "lua#BE", "py#BEZ!:1,2"]
+
+
 def gen_funcs(rng, case):
     names = case["names"]
     k = rng.randrange(1, max(2, len(names)))
@@ -191,9 +239,10 @@ def run_script_case(ctx, objdir, case, variants):
     res = []
     replay_cache = {}
     for lang, funcs, sel in variants:
-        script = os.path.join(ctx.scratch, "log.%s" % ("py" if lang == "py" else "lua"))
+        base, verbose = lang_parts(lang)[:2]
+        script = os.path.join(ctx.scratch, "log.%s" % ("py" if base == "py" else "lua"))
         write_script(script, lang, funcs)
-        args = ["-S", script]
+        args = ["-S", script] + (["-v"] if verbose else [])
         if funcs is not None and funcs_ptype(funcs) == "glob":
             args.append("--match=glob")
         if sel is not None:
@@ -290,7 +339,7 @@ def run_opts_case(ctx, objdir, case, variants):
     addr_map.update({c06.BASE2 + sy[0]: c06.fid(case, i) for i, sy in enumerate(c06.sym_table(case))})
     res = []
     for lang, o, funcs, sel in variants:
-        script = os.path.join(ctx.scratch, "logo.%s" % ("py" if lang == "py" else "lua"))
+        script = os.path.join(ctx.scratch, "logo.%s" % ("py" if lang_parts(lang)[0] == "py" else "lua"))
         write_script(script, lang, funcs)
         extra = opts_args(o)
         if funcs is not None and funcs_ptype(funcs) == "glob":
@@ -381,9 +430,9 @@ def evaluate(ctx, items, name):
         vs = []
         for (lang, funcs, sel), cbs, lines in obs:
             fl = matched_ids(case, funcs)
-            vs.append("([%s], %s, [%s], [%s])" % (
+            vs.append("([%s], %s, %s, [%s], [%s])" % (
                 "; ".join(map(str, fl)),
-                "None" if sel is None else "(Some [%s])" % "; ".join("%d%%nat" % i for i in sel),
+                "None" if sel is None else "(Some [%s])" % "; ".join("%d%%nat" % i for i in sel), coq_defs(lang),
                 "; ".join(coq_cb(c) for c in cbs), "; ".join(c06.coq_line(l) for l in lines)))
         defs.append("Definition c%d : scase := ([%s], [%s], [%s])." % (
             ci, "; ".join(str(c06.fid(case, k)) for k in case["forks"]), ";\n ".join(c06.coq_task(t, case) for t in case["tasks"]),
@@ -450,11 +499,13 @@ def record_time(ctx, objdir):
     uft = os.path.join(objdir, "uftrace")
     base_runs = ctx.n(5, 30)
     runs = base_runs + ctx.n(4, 10)       # + regression runs: a Lua script and four busy threads (fix: interpreter lock)
+    nsub = ctx.n(2, 8)                    # + scripts that define only uftrace_entry or only uftrace_exit (beside begin/end)
     terms, metas = [], []
-    for k in range(runs):
+    for k in range(runs + nsub):
         nthr = rng.choice([1, 2, 3, 4])
         work = rng.choice([1, 2, 5])
-        stress = k >= base_runs
+        stress = base_runs <= k < runs
+        sub = None if k < runs else ["#BEZ", "#BXZ"][(k - runs) % 2]
         if stress:
             nthr, work = 4, 5
         with_fork = (k == 2) or rng.random() < 0.4 and k >= 2 and k % 2 == 0   # option-free runs only (see ropts below): the harness
@@ -464,13 +515,17 @@ def record_time(ctx, objdir):
             funcs = funcs + ["fork"]        # the harness locates the child's inherited frames by the fork() entry
         if stress:
             funcs, with_fork = None, False
+        if sub:
+            with_fork = False
         src = os.path.join(root, "p%d.c" % k)
         open(src, "w").write(PROG % {"nthr": nthr, "work": work, "fork": FORK_PART if with_fork else ""})
         exe = os.path.join(root, "p%d" % k)
         sh(["gcc", "-pg", "-O0", "-pthread", "-o", exe, src], check=True)
         lang = "lua" if (k % 5 == 4 or stress) else "py"
+        if sub:
+            lang = "lua" if (k - runs) % 4 >= 2 else "py"
         script = os.path.join(root, "log%d.%s" % (k, lang))
-        write_script(script, lang, funcs)
+        write_script(script, lang + (sub or ""), funcs)
         d = os.path.join(root, "rec%d.data" % k)
         shutil.rmtree(d, ignore_errors=True)
         # record-time options: the pairing clause must hold under every filter / trigger option set
@@ -489,12 +544,12 @@ def record_time(ctx, objdir):
             ropts = ["-T", "rec@trace_off"]
         if k == 3:
             ropts = ["-t", "1ms", "-T", "mid@read=proc/statm", "-W", "cpu"]   # time-filtered calls with pending events
-        if stress:
+        if stress or sub:
             ropts = []
         rc, out, err = sh(["timeout", "60", uft, "record", "--no-pager", "--no-event", "--libmcount-path=" + objdir,
                            "-d", d, "-S", script] + ropts + [exe], timeout=90,
                           env={"PYTHONPATH": os.path.join(objdir, "python")})
-        meta = {"threads": nthr, "work": work, "fork": with_fork, "funcs": funcs, "record_options": ropts, "lang": lang}
+        meta = {"threads": nthr, "work": work, "fork": with_fork, "funcs": funcs, "record_options": ropts, "lang": lang + (sub or "")}
         if rc != 0:
             ctx.violation("uftrace record -S failed (rc=%d): %s" % (rc, (out + err)[-300:]), {"record_time": meta}, True)
             continue
@@ -504,7 +559,10 @@ def record_time(ctx, objdir):
         # a forked child runs the script's begin/end as well: split per process is not possible from
         # the text alone, so only the paired-ness per tid is judged (B/Z of the child are dropped)
         inner = [c for c in cbs if c[0] in ("E", "X", "?")]
-        cbs2 = [("B",)] + inner + [("Z",)]
+        cbs2 = [("B",)] + ([] if sub else inner) + [("Z",)]      # pairing needs both kinds; a one-kind script is compared with replay
+        if sub and any(c[0] not in sub for c in inner):
+            inner_bad = True
+            cbs2 = [("?",)]
         # uftrace_begin exactly once (before anything else); uftrace_end exactly once per process (the forked child
         # inherits the interpreter and ends it itself), the recorded program's own end last
         bs = [c for c in cbs if c[0] == "B"]
@@ -523,7 +581,7 @@ def record_time(ctx, objdir):
             m = re.fullmatch(r" *\[ *(\d+)\] \| ( *)\} /\* ([A-Za-z_][A-Za-z_0-9.]*) \*/", ln)
             if m:
                 rep.setdefault(int(m.group(1)), []).append("X " + m.group(3))
-        want = {t: [n for n in ns if funcs is None or n[2:] in funcs] for t, ns in rep.items()}
+        want = {t: [n for n in ns if (funcs is None or n[2:] in funcs) and (not sub or n[0] in sub)] for t, ns in rep.items()}
         got = {}
         inv_t = {v: k2 for k2, v in tids.items()}
         inv_n = {v: k2 for k2, v in names.items()}
@@ -555,7 +613,7 @@ def record_time(ctx, objdir):
                                                  for t, st in inits.items()),
                                        "; ".join(coq_cb(c) for c in cbs2)))
         metas.append((meta, ok_shape, same, got, want))
-        ctx.case(key=("record", k, repr(meta)), tags=["record-time", "threads=%d" % nthr, "ropts:" + (" ".join(o for o in ropts if o.startswith("-")) or "none"), "record-lang=" + lang] + (["fork"] if with_fork else [])
+        ctx.case(key=("record", k, repr(meta)), tags=["record-time", "threads=%d" % nthr] + (["record-defines=" + sub[1:]] if sub else []) + [ "ropts:" + (" ".join(o for o in ropts if o.startswith("-")) or "none"), "record-lang=" + lang] + (["fork"] if with_fork else [])
                  + (["UFTRACE_FUNCS"] if funcs else []), size=len(inner))
     if not terms:
         return
@@ -1022,17 +1080,32 @@ def run(ctx):
         if ctx.thorough():
             variants += [("py", None, closed_sel(rng, case)), ("py", gen_funcs(rng, case), closed_sel(rng, case)),
                          ("lua", gen_funcs(rng, case), None)]
+        # callbacks that raise (KeyError in Python, error() in Lua) after logging: the following callbacks must still get
+        # their own record's fields (an exception left pending poisoned the next ctx["name"]: fixed in /repo, see manifest)
+        nrec = sum(len(t["recs"]) for t in case["tasks"])
+        pts = lambda: ",".join(map(str, sorted(set(rng.sample(range(0, nrec + 1), min(nrec + 1, rng.choice([1, 2, 3]))))
+                                                   | ({0} if rng.random() < 0.2 else set()))))
+        kk = len(items)
+        # scripts that define only some of the callbacks (legal and documented): each defined one gets its projection
+        sub = SUBSETS[kk % len(SUBSETS)]
+        variants.append((sub, gen_funcs(rng, case) if kk % 5 == 2 else None, closed_sel(rng, case) if kk % 7 == 3 else None))
+        if ctx.thorough():
+            variants.append((SUBSETS[(kk + 5) % len(SUBSETS)], None, None))
+        variants.append(("py!%s:%s" % ("v" if kk % 3 == 1 else "", pts()), gen_funcs(rng, case) if kk % 4 == 3 else None, None))
+        if kk % 3 == 2 or ctx.thorough():
+            variants.append(("lua!:%s" % pts(), None, None))
         if case["illformed"]:
             # an inverted timestamp gives a duration of 2^64-x: Lua numbers cannot hold it (and the
             # stream is outside the property's domain): model correspondence through Python only
-            variants = [v for v in variants if v[0] == "py"]
+            variants = [v for v in variants if v[0].startswith("py")]
         obs = run_script_case(ctx, objdir, case, variants)
         items.append((case, obs))
         tags = c06.case_tags(case)
         for (lang, funcs, sel), cbs, lines in obs:
             ctx.case(key=(repr([(t["parent"], t["recs"]) for t in case["tasks"]]), lang, repr(funcs), repr(sel)),
                      nontrivial=len(case["tasks"]) > 1,
-                     tags=tags + ["lang=" + lang] + (["UFTRACE_FUNCS"] if funcs else []) + (["--tid"] if sel else []),
+                     tags=tags + ["lang=" + lang_parts(lang)[0]] + (["defines=" + lang_parts(lang)[3]] if "#" in lang else []) + (["raising-callback" + ("-v" if lang_parts(lang)[1] else "")] if "!" in lang else [])
+                     + (["UFTRACE_FUNCS"] if funcs else []) + (["--tid"] if sel else []),
                      sample={"tasks": case["tasks"], "lang": lang, "funcs": funcs, "sel": sel, "callbacks": len(cbs)}
                      if len(ctx.samples) < 3 and len(case["tasks"]) > 1 else None,
                      size=sum(len(t["recs"]) for t in case["tasks"]))
